@@ -494,7 +494,7 @@ def _main(mod, prop, args, t_start):
             "exhaustive": bool(part.exhaustive.get(tier, False)) and not st.budget_exhausted,
             "budget_exhausted": st.budget_exhausted,
         }
-        floor = part.min_nontrivial.get(tier, 2)
+        floor = max(2, int(part.min_nontrivial.get(tier, 2) * min(1.0, args.scale)))
         if len(st.nontrivial) < floor and not st.budget_exhausted:
             raise HarnessError(
                 f"part {part.name}: only {len(st.nontrivial)} non-trivial cases (< {floor}); generator is broken"
